@@ -126,7 +126,20 @@ def stats3 (j : Json) : Int × Int × Int :=
   let a := jarr j
   (jint (a.getD 0 Json.null), jint (a.getD 1 Json.null), jint (a.getD 2 Json.null))
 
+/-- kind "bursts": bursts of concurrent clients while watchers keep reading the gauges; after every burst nothing is in
+    flight, so every gauge reads 0 (`reported` of a history whose attempts have all ended) and goes on reading 0. -/
+def handleBursts (j : Json) : IO Unit := do
+  let case := jnat (jget j "case")
+  let impl := jget j "impl"
+  if jstr (jget impl "start_err") != "" then
+    emit case false true "start-error" "" (jstr (jget impl "start_err")); return
+  let stale := jnat (jget impl "stale_rounds")
+  emit case (stale == 0) (stale == 0) s!"bursts.{jstr (jget j "engine")}.{jstr (jget j "balancer")}" (if stale == 0 then "" else "gauge-nonzero-with-nothing-in-flight-under-concurrent-readers")
+    (if stale == 0 then "" else s!"{jstr (jget j "engine")}/{jstr (jget j "balancer")}: {stale} of {jnat (jget impl "rounds")} bursts of {jnat (jget impl "clients")} clients with {jnat (jget impl "watchers")} gauge readers; {jstr (jget impl "first")}")
+
 def handle (vs : Variants) (j : Json) : IO Unit := do
+  if jstr (jget j "kind") == "bursts" then
+    handleBursts j; return
   let case := jnat (jget j "case")
   let sc := jget j "scenario"
   let impl := jget j "impl"
